@@ -80,3 +80,16 @@ def same_array(A, B):
 def is_int(x):
     import numbers
     return isinstance(x, numbers.Integral)
+
+
+def defines(a, b):
+    import numpy as np
+    if isinstance(a, np.ndarray) or isinstance(b, np.ndarray):
+        return same_array(a, b)
+    return a == b
+
+
+def count(*args):
+    import itertools
+    *dims, f = args
+    return sum(1 for ix in itertools.product(*[range(int(d)) for d in dims]) if f(*ix))
